@@ -114,7 +114,7 @@ def run_verus(path, rlimit=30, threads=4, extra=None, multiple_errors=30):
     return {"cmd": " ".join(cmd), "rc": p.returncode, "json": res, "diags": diags, "stderr": p.stderr, "wall": wall}
 
 
-INLINE_RX = re.compile(r"(?:no method named `(?P<m>\w+)` found for (?:reference|struct|mutable reference) `&?(?:mut )?(?P<mp1>[\w:]*::)?(?P<t1>\w+)[^`]*`|no (?:function or )?associated (?:function|item)(?: or constant)? named `(?P<f>\w+)` found for struct `(?P<mp2>[\w:]*::)?(?P<t2>\w+)[^`]*`) in the current scope at (?:src/(?P<rel>[\w/\.]+)|<generated>):")
+INLINE_RX = re.compile(r"(?:no method named `(?P<m>\w+)` found for (?:reference|struct|mutable reference) `&?(?:mut )?(?P<mp1>[\w:]*::)?(?P<t1>\w+)[^`]*`|no (?:variant, |function or )?associated (?:function|item)(?:,? or constant)? named `(?P<f>\w+)` found for (?:struct|enum) `(?P<mp2>[\w:]*::)?(?P<t2>\w+)[^`]*`) in the current scope at (?:src/(?P<rel>[\w/\.]+)|<generated>):")
 
 
 def _rel_of_module(mp):
@@ -127,52 +127,61 @@ def _rel_of_module(mp):
         if os.path.exists(os.path.join(core.REPO, "src", cand)):
             return cand
     return None
-REFLECT_FAIL_RX = re.compile(r"(with mode exec|not allowed in pure context|cannot call function .* with mode exec|in spec-mode|spec mode).*at <generated>|cannot call function .* with mode exec")
+REFLECT_FAIL_RX = re.compile(r"(with mode exec|not allowed in pure context|in spec/proof|cannot call function .* with mode exec|in spec-mode|spec mode).*at <generated>|cannot call function .* with mode exec")
 AUTO_RX = re.compile(r"(?:cannot find (?:function|value|type|struct, variant or union type) `(\w+)` in this scope|variable `([A-Z][A-Z0-9_]+)` is not bound in all patterns) at src/([\w/\.]+):")
+
+
+NOT_PURE_RX = re.compile(r"auto-include: helper (\w+) in ([\w/\.]+) is not a pure free fn")
 
 
 def run_unit(name, prop, canary=False, mutate=None, suffix=""):
     """Assemble + verify; helpers the extracted text references but the unit does not list are
-    pulled in automatically (at most 4 rounds)."""
-    reflect_retry = False
-    for _ in range(5):
-        snap = {k: set(v) for k, v in core.AUTO.items()}
-        snap_inl = {k: set(v) for k, v in core.INLINE.items()}
-        out = _run_unit(name, prop, canary, mutate, suffix)
-        new = False
+    pulled in automatically.  AUTO / INLINE are kept per unit (the real run and the canary run of a
+    unit share them and may run in parallel): a round is repeated whenever the sets changed --
+    by this run or by the other one -- after this round's text had been assembled."""
+    A = lambda rel: core.AUTO.setdefault((name, rel), set())
+    I = lambda rel: core.INLINE.setdefault((name, rel), set())
+    def state():
+        return (frozenset((k, frozenset(v)) for k, v in core.AUTO.items() if k[0] == name),
+                frozenset((k, frozenset(v)) for k, v in core.INLINE.items() if k[0] == name))
+    out = None
+    for _ in range(7):
+        snap = state()
+        try:
+            out = _run_unit(name, prop, canary, mutate, suffix)
+        except Undecided as e:
+            mp = NOT_PURE_RX.search(str(e))
+            if mp:
+                # an effectful free helper: inline it at its call sites (E12) instead
+                I(mp.group(2)).add(mp.group(1))
+                A(mp.group(2)).discard(mp.group(1))
+                if state() != snap:
+                    continue
+            raise
         for msg in out["undecided"]:
             mi = INLINE_RX.search(msg)
             if mi:
                 nm = (mi.group("t1") + "::" + mi.group("m")) if mi.group("m") else (mi.group("t2") + "::" + mi.group("f"))
                 rel = mi.group("rel") or _rel_of_module(mi.group("mp1") or mi.group("mp2"))
-                if rel is None:
-                    continue
-                if nm not in snap_inl.get(rel, set()):
-                    new = True
-                core.INLINE.setdefault(rel, set()).add(nm)
+                if rel is not None:
+                    I(rel).add(nm)
                 continue
             m = AUTO_RX.search(msg)
             if m:
-                st = core.AUTO.setdefault(m.group(3), set())
                 nm = m.group(1) or m.group(2)
-                if nm not in snap.get(m.group(3), set()):
-                    new = True
-                st.add(nm)
-        if not new and any(REFLECT_FAIL_RX.search(msg) for msg in out["undecided"]):
-            # a pure-looking free helper whose body calls std functions that have no spec-mode
-            # counterpart cannot get a reflection contract: inline it at its call sites instead (E12)
-            for rel, names in list(core.AUTO.items()):
+                if nm not in I(m.group(3)):
+                    A(m.group(3)).add(nm)
+        if any(REFLECT_FAIL_RX.search(msg) for msg in out["undecided"]):
+            # a pure-looking free helper whose body cannot be a spec function (it calls std functions
+            # without a spec-mode counterpart, uses `return` / let-else): inline it instead (E12)
+            for (un, rel), names in list(core.AUTO.items()):
+                if un != name:
+                    continue
                 src = core.Src.get(rel)
                 fns = {nm for nm in names if any(it.get("name") == nm and it["kind"] == "fn" for it in src._walk(src.index["items"]))}
-                if fns - core.INLINE.get(rel, set()):
-                    core.INLINE.setdefault(rel, set()).update(fns)
-                    core.AUTO[rel] = set(names) - fns
-                    new = True
-            if not new and not reflect_retry:
-                # AUTO / INLINE are shared by the units run in parallel: another unit's run may have
-                # moved the helper already, after this run had been assembled
-                reflect_retry = new = True
-        if not new:
+                I(rel).update(fns)
+                core.AUTO[(un, rel)] = set(names) - fns
+        if not out["undecided"] or state() == snap:
             return out
     return out
 
